@@ -10,18 +10,18 @@ The message point of a payload is `Hm p.eth p.amount p.nonce p.receiver` for an 
 (`GetStringToSign` = `H(ethTxn:amount:nonce:receiver)` followed by hash-to-curve); "valid signature over exactly
 (burn reference, amount, nonce, receiver)" is `ValidSig … (Hm p.eth p.amount p.nonce p.receiver)`.
 
-## mint_requires_quorum — FALSE of the code as it is
+## mint_requires_quorum
 Full statement: *a successful mint carries valid signatures over exactly its (burn reference, amount, nonce,
 receiver) from at least `threshold` distinct registered authorizers, and the submitter is the receiving client.*
-* `mint_requires_quorum_fails`     negation witness (kernel-evaluated): with 3 registered authorizers and threshold 2, a
-                                    payload whose three signatures are all forged (well-formed points that do not verify)
-                                    mints. Cause: models.go:189-192, `errors.Wrap(nil, …) = nil` (see `Model/Zcn.lean`).
-* `mint_requires_quorum_partial`   what does hold of the code: receiver = submitter, ≥ threshold DISTINCT ids were
-                                    submitted, the counted signatures are a run of valid ones followed either by nothing or by a
-                                    well-formed signature under a registered id that does not verify; if no counted signature is
-                                    of that last kind, the full quorum statement holds.
-* `mint_requires_quorum_repaired`  the full statement, for the evidently intended check (`strict := true`: an invalid
-                                    signature is an error).
+* `mint_requires_quorum`                     the full statement, for the code as it is (`strict := true`, since `fix:` 3c528ec).
+* `forged_mint_refused`                      the forged payload below is refused by the code as it is.
+Historical (the code before 3c528ec, `strict := false`; kept so that a regression is recognised for what it is):
+* `mint_requires_quorum_failed_before_fix`   kernel-evaluated witness: with 3 registered authorizers and threshold 2, a payload
+                                             whose three signatures are all forged (well-formed points that do not verify) minted.
+                                             Cause: `errors.Wrap(nil, …) = nil` in `verifySignatures`.
+* `mint_requires_quorum_before_fix`          what did hold of that code: receiver = submitter, ≥ threshold DISTINCT ids submitted,
+                                             the counted signatures were a run of valid ones followed by nothing or by a well-formed
+                                             signature under a registered id that does not verify.
 ## threshold_close, nonce_once, mint_amounts
 * `threshold_close`                 the threshold is within ½ of the float product `percent·n` (round-half-even);
                                     `threshold_below_fraction_witness`: 2 of 3 authorizers suffice at 70 % (reading rule of DESIGN §3.5).
@@ -66,8 +66,8 @@ theorem mint_ok_common (strict : Bool) (s : ZSt) (sender : Id) (p : MintIn) (h :
     rw [hu] at this
     exact mintSigs_sub s p thr sigs h1 sg (uniqueSigs_sub sigs sg this)
 
-/-- **mint_requires_quorum** for the repaired check (`strict := true`). -/
-theorem mint_requires_quorum_repaired (Hm : Nat → Nat → Int → Id → Fr) (s : ZSt) (sender : Id) (p : MintIn)
+/-- **mint_requires_quorum** (the code as it is, `strict := true`). -/
+theorem mint_requires_quorum (Hm : Nat → Nat → Int → Id → Fr) (s : ZSt) (sender : Id) (p : MintIn)
     (pick : Nat → Nat) (o : MintOut)
     (hm : mint true s sender (some p) (Hm p.eth p.amount p.nonce p.receiver) pick = .ok o) :
     p.receiver = sender ∧ threshold s.cfg.percent s.count = some o.threshold ∧
@@ -75,8 +75,8 @@ theorem mint_requires_quorum_repaired (Hm : Nat → Nat → Int → Id → Fr) (
   obtain ⟨hrecv, _, _, _, hthr, hnd, hsub, hlen, _, hvs⟩ := mint_ok_common true s sender p _ pick o hm
   exact ⟨hrecv, hthr, ⟨hnd, hsub, verifySigs_strict s.auths _ o.counted hvs, hlen⟩⟩
 
-/-- **mint_requires_quorum_partial** — the code as it is (`strict := false`). -/
-theorem mint_requires_quorum_partial (Hm : Nat → Nat → Int → Id → Fr) (s : ZSt) (sender : Id) (p : MintIn)
+/-- historical: the code before `fix:` 3c528ec (`strict := false`). -/
+theorem mint_requires_quorum_before_fix (Hm : Nat → Nat → Int → Id → Fr) (s : ZSt) (sender : Id) (p : MintIn)
     (pick : Nat → Nat) (o : MintOut)
     (hm : mint false s sender (some p) (Hm p.eth p.amount p.nonce p.receiver) pick = .ok o) :
     p.receiver = sender ∧ threshold s.cfg.percent s.count = some o.threshold ∧
@@ -92,7 +92,7 @@ theorem mint_requires_quorum_partial (Hm : Nat → Nat → Int → Id → Fr) (s
   intro hns
   exact ⟨hnd, hsub, verifySigs_coded_of_no_silent s.auths _ o.counted hvs hns, hlen⟩
 
-/-! ### the negation witness -/
+/-! ### the forged payload -/
 
 /-- 70 % -/
 def pct70 : F64 := F64.ofBits 0x3fe6666666666666
@@ -111,9 +111,9 @@ def wForged : MintIn :=
   { eth := 1, amount := 5000, nonce := 1, receiver := 3,
     sigs := [⟨some 0, some (sign 5 wH)⟩, ⟨some 1, some (sign 6 wH)⟩, ⟨some 2, some (sign 7 wH)⟩] }
 
-/-- **mint_requires_quorum is false of the code as it is**: the forged payload mints (4967 of the requested 5000
-are paid out), although not a single submitted signature is valid. -/
-theorem mint_requires_quorum_fails :
+/-- historical witness: before `fix:` 3c528ec the forged payload minted (4967 of the requested 5000 were paid out),
+although not a single submitted signature is valid. -/
+theorem mint_requires_quorum_failed_before_fix :
     (∃ o, mint false wS 3 (some wForged) wH (fun _ => 0) = .ok o ∧ o.paid = 4967 ∧ o.threshold = 2) ∧
     (∀ sg ∈ wForged.sigs, ¬ ValidSig wS.auths wH sg) ∧
     (mintStep false true wS ⟨3, 0, 5, 1⟩ (some wForged) wH (fun _ => 0)).2 = .success := by
@@ -139,12 +139,12 @@ theorem mint_requires_quorum_fails :
       exact absurd hv (by decide +kernel)
   · decide +kernel
 
-/-- the same payload is refused by the repaired check. -/
-theorem forged_refused_when_repaired :
+/-- the same payload is refused by the code as it is. -/
+theorem forged_mint_refused :
     (match mint true wS 3 (some wForged) wH (fun _ => 0) with | .error e => e == .verify | .ok _ => false) = true := by
   decide +kernel
 
-/-- non-vacuity of `mint_requires_quorum_repaired` / `_partial`: an honest 2-of-3 mint succeeds in both variants. -/
+/-- non-vacuity of `mint_requires_quorum` (and of the historical variant): an honest 2-of-3 mint succeeds. -/
 def wHonest : MintIn :=
   { eth := 1, amount := 5000, nonce := 1, receiver := 3, sigs := [⟨some 2, some (sign 13 wH)⟩, ⟨some 0, some (sign 11 wH)⟩] }
 example : (match mint true wS 3 (some wHonest) wH (fun _ => 1) with | .ok o => o.paid == 4950 && o.rewarded == 2 | _ => false) = true := by
@@ -153,11 +153,11 @@ example : (match mint false wS 3 (some wHonest) wH (fun _ => 1) with | .ok o => 
   decide +kernel
 -- one valid signature is not enough, a duplicated one does not count twice, a foreign (unregistered) signer is refused
 def errIs (r : Except MintErr MintOut) (e : MintErr) : Bool := match r with | .error x => x == e | .ok _ => false
-example : errIs (mint false wS 3 (some { wHonest with sigs := [⟨some 0, some (sign 11 wH)⟩] }) wH (fun _ => 0)) .fewSigs = true := by
+example : errIs (mint true wS 3 (some { wHonest with sigs := [⟨some 0, some (sign 11 wH)⟩] }) wH (fun _ => 0)) .fewSigs = true := by
   decide +kernel
-example : errIs (mint false wS 3 (some { wHonest with sigs := [⟨some 0, some (sign 11 wH)⟩, ⟨some 0, some (sign 11 wH)⟩] }) wH (fun _ => 0))
+example : errIs (mint true wS 3 (some { wHonest with sigs := [⟨some 0, some (sign 11 wH)⟩, ⟨some 0, some (sign 11 wH)⟩] }) wH (fun _ => 0))
     .notEnough = true := by decide +kernel
-example : errIs (mint false wS 3 (some { wHonest with sigs := [⟨some 0, some (sign 11 wH)⟩, ⟨some 5, some (sign 15 wH)⟩] }) wH (fun _ => 0))
+example : errIs (mint true wS 3 (some { wHonest with sigs := [⟨some 0, some (sign 11 wH)⟩, ⟨some 5, some (sign 15 wH)⟩] }) wH (fun _ => 0))
     .verify = true := by decide +kernel
 
 /-! ## threshold_close -/
@@ -400,7 +400,7 @@ mint whose seeded choice falls on authorizer 0, whose pool is below its minimum 
 5000 − 50, the share of 50 stays in the bridge wallet, and NO stake pool changes — the fee is credited to nobody
 (`DistributeRewards` returns early: stakepool.go:569). -/
 theorem mint_fee_not_credited_witness :
-    (match mint false wSfresh 3 (some wHonest) wH (fun _ => 0) with
+    (match mint true wSfresh 3 (some wHonest) wH (fun _ => 0) with
       | .ok o => o.paid == 4950 && o.share == 50 && o.rewarded == 0 &&
                  (o.st.pools.map fun q => (q.1, q.2.sp.reward, q.2.sp.pools)) == (wSfresh.pools.map fun q => (q.1, q.2.sp.reward, q.2.sp.pools))
       | .error _ => false) = true := by
@@ -408,15 +408,15 @@ theorem mint_fee_not_credited_witness :
 
 /-- … whereas with a sufficiently staked pool the share is credited (here: to the single delegate). -/
 example :
-    (match mint false wS 3 (some wHonest) wH (fun _ => 0) with
+    (match mint true wS 3 (some wHonest) wH (fun _ => 0) with
       | .ok o => o.share == 50 && o.rewarded == 0 &&
                  ((o.st.pools.map fun q => (q.1, q.2.sp.reward, q.2.sp.pools)) == [(0, 0, [⟨100, 50⟩]), (1, 0, [⟨100, 0⟩]), (2, 0, [⟨100, 0⟩])])
       | .error _ => false) = true := by
   decide +kernel
 
 -- non-vacuity of `mint_amounts_partial` and `nonce_once`: a successful mint transaction, then the same nonce again
-example : (mintStep false true wS ⟨3, 0, 5, 1⟩ (some wHonest) wH (fun _ => 1)).2 = .success := by decide +kernel
-example : mintLog false true wS [.mint ⟨3, 0, 5, 1⟩ (some wHonest) wH (fun _ => 1), .mint ⟨3, 0, 5, 2⟩ (some wHonest) wH (fun _ => 1),
+example : (mintStep true true wS ⟨3, 0, 5, 1⟩ (some wHonest) wH (fun _ => 1)).2 = .success := by decide +kernel
+example : mintLog true true wS [.mint ⟨3, 0, 5, 1⟩ (some wHonest) wH (fun _ => 1), .mint ⟨3, 0, 5, 2⟩ (some wHonest) wH (fun _ => 1),
     .mint ⟨3, 0, 5, 3⟩ (some { wHonest with nonce := 2 }) wH (fun _ => 1)] = [1, 2] := by decide +kernel
 
 end ZChain.Zcn
